@@ -206,6 +206,7 @@ func (tc *traceClient) Call(x *core.TSCtx, site ssa.CallInstruction, s string) (
 		k := core.KNoErr
 		if sig := cc.Signature(); core.ErrorResultIndex(sig) >= 0 {
 			// the failing outcome is announced to the automaton as a separate event
+			tc.Events["FAIL:"+cb]++
 			fq := tc.rule.step(tc, x, site, nq, "FAIL:"+cb)
 			return []core.TSOut{{S: joinState(open, nq), Err: core.KNil}, {S: joinState(open, fq), Err: core.KNonNil}}, true
 		}
